@@ -17,9 +17,7 @@ E == Rec[l]
 Conforms ==
   IF E.member # "sender"
   THEN E.lines = <<>> /\ ~E.panic      \* the target is not a member (or has no connection): nothing is built or sent
-  ELSE IF E.panic
-  THEN PanicExplained(E.oplog, E.idd, E.idk, E.store, E.since)
-  ELSE CatchUpOK(E.oplog, E.idd, E.idk, E.store, E.since, E.lines)
+  ELSE ~E.panic /\ CatchUpOK(E.oplog, E.idd, E.idk, E.store, E.since, E.lines)
 
 TraceInit == l = 1
 TraceNext == /\ l <= Len(Rec) /\ l' = l + 1
